@@ -80,7 +80,10 @@ UseReq(name, args) == WithDirs(ObjectD(name, <<>>, <<FieldD("r", I, <<>>)>>), <<
 GoodDocs ==
   { <<DQuery, DA, DB, DN>>, <<DU1, DE, DIn>>, <<DMut>>, <<DTag, DDate>>, <<XQuery>>, <<XA>>, <<XE, XU>>, <<XIn>>,
     <<DSchema>>, <<DSchemaQ>>, <<DE>>, <<DIn, DMut>>, <<DMut2>>, <<DSub>>, <<XQuery2, XE2>>,
-    <<XAImpl>>, <<DTop, DSchemaTop>>, <<DSub, XSchemaSub>>, <<XSchemaMut>>, <<XDateTag>>, <<DMark, DE3>>, <<DCfg, DUseCfg>>, <<XInD>>, <<DReq>>, <<WithDesc(ScalarD("Date"), "again")>>, <<UseReq("R1", <<>>)>>, <<DReq, UseReq("R2", <<AV("n", IntV(5))>>)>> }
+    <<XAImpl>>, <<DTop, DSchemaTop>>, <<DSub, XSchemaSub>>, <<XSchemaMut>>, <<XDateTag>>, <<DMark, DE3>>, <<DCfg, DUseCfg>>, <<XInD>>, <<DReq>>, <<WithDesc(ScalarD("Date"), "again")>>, <<UseReq("R1", <<>>)>>, <<DReq, UseReq("R2", <<AV("n", IntV(5))>>)>>,
+    \* types and directives have name spaces of their own: one document defines a directive and a scalar of one name and uses both
+    <<DirectiveD("both", <<>>, <<"OBJECT">>), ScalarD("both"), WithDirs(ObjectD("Holder", <<>>, <<FieldD("d", Named("both"), <<>>)>>), <<DU("both", <<>>)>>)>>,
+    <<EnumD("both2", <<EV("P")>>), DirectiveD("both2", <<>>, <<"ENUM">>)>> }
 BadDocs ==
   { <<Syntax>>, <<XQuery, Syntax>>, <<DSchemaQ, Syntax>>, <<DE, ReadFault>>, <<XE, ReadFault, XU>>,
     <<XE, FXNotFound>>, <<XQuery, FEmpty>>, <<DSchemaQ, FUndef>>, <<FDup>>, <<XIn, FXDupField>>, <<XQuery, FXKind>>,
@@ -91,6 +94,11 @@ BadDocs ==
     \* a scalar declared again (silently skipped), this time with a description, in documents refused afterwards
     <<WithDesc(ScalarD("Date"), "late"), FEmpty>>, <<WithDesc(ScalarD("Date"), "late"), FUndef>>, <<WithDesc(ScalarD("Date"), "late"), FDup>>,
     <<XInD, FEmpty>>, <<UseReq("R3", <<AV("n", NullV)>>)>>, <<DReq, UseReq("R3", <<AV("n", NullV)>>)>>, <<DMark, FUndef>>, <<DMark, DE3, FEmpty>>, <<DE3, FDup>>, <<DMark, FDup>>,
+    \* names no name rule allows, in every place a name stands (delivered as text they do not even parse; built in Go and
+    \* handed to AddTypes they are refused by the rules)
+    <<ObjectD("-lead", <<>>, <<FieldD("x", I, <<>>)>>)>>, <<ObjectD("Ok7", <<>>, <<FieldD("$x", I, <<>>)>>)>>, <<EnumD("Ok8", <<EV("P"), EV("%V")>>)>>,
+    <<DirectiveD("-d", <<>>, <<"OBJECT">>)>>, <<ObjectD("Ok9", <<>>, <<FieldD("y", I, <<ArgD("-a", I)>>)>>)>>, <<InputD("Ok10", <<ArgD("f", I), ArgD("a-b", I)>>)>>,
+    <<DirectiveD("ok11", <<ArgD("-a", I)>>, <<"OBJECT">>)>>,
     <<DMut2, FEmpty>>, <<DSub, FInOut>>, <<XQuery, XQuery2, FEmpty>>, <<XE, XE2, FXNotFound>>, <<XIn, XIn2, FXDupField>> }
 G1 == <<DQuery, DA, DB, DN>>
 G2 == <<DU1, DE, DIn>>
